@@ -973,4 +973,201 @@ theorem blk_wait {μ : M} {s : St} {c : CSt} {m : TmoSt} (g : Good μ s) (I : In
       · exact (hfacts a e).2 hg
     · exact Or.inr h2
 
+
+theorem internal_post {μ : M} {s : St} {c : CSt} {m : TmoSt} (g : Good μ s) (I : Inv s c m) (b : Block)
+    (hpc : s.pc = .run b) (hcap : ((internal s b).2.map Ev.out).all capOk = true) :
+    Post (internal s b).1 c m ((internal s b).2.map Ev.out) := by
+  cases b with
+  | mainTop rt => exact blk_mainTop g I rt hpc
+  | collect => exact blk_collect g I hpc
+  | popTimer => exact blk_popTimer g I hpc
+  | startTasks => exact blk_startTasks g I hpc
+  | popTask => exact blk_popTask g I hpc
+  | runEvents => exact blk_runEvents g I hpc
+  | popEvent => exact blk_popEvent g I hpc
+  | resume => exact blk_resume g I hpc
+  | exitCheck => exact blk_exitCheck g I hpc
+  | prepWait => exact blk_prepWait g I hpc
+  | flush abs km => exact blk_flush g I abs km hpc
+  | wait abs km => exact blk_wait g I abs km hpc hcap
+  | dispatchNext => exact blk_dispatchNext g I hpc
+  | fdStage => exact blk_fdStage g I hpc
+
+/-! ## inputs -/
+
+/-- the shape of the outputs of an input step outside the wait -/
+inductive Shape (s' : St) : List Out → Prop
+  | dead (o : Out) : s'.pc = .dead → ProofsReach.isBad o = true → Shape s' [o]
+  | nil : waitArgs s'.pc = none → Shape s' []
+  | ret (v : Int) : waitArgs s'.pc = none → Shape s' [Out.ret v]
+  | cb (k : Cb) : s'.pc = .user → Shape s' [Out.cb k]
+
+theorem Post.idle {s' : St} {c : CSt} {m : TmoSt} {i : Input} {outs : List Out} (hf : m.owed = false)
+    (h0 : m.zeros = 0) (hmi : tmoStep m (.inp i) = .ok m) (hci : ctrStep c (.inp i) = .ok c)
+    (hc : c.last = ns s'.time) (hsh : Shape s' outs) : Post s' c m (Ev.inp i :: outs.map Ev.out) := by
+  intro c' hc'
+  rw [List.foldlM_cons, hci] at hc'
+  change (outs.map Ev.out).foldlM ctrStep c = .ok c' at hc'
+  rw [List.foldlM_cons, hmi]
+  change ∃ m', (outs.map Ev.out).foldlM tmoStep m = .ok m' ∧ _
+  cases hsh with
+  | dead o hd hb => exact Post.dead (by omega) hd hb c' hc'
+  | nil hw => cases hc'; exact ⟨m, rfl, by omega, Or.inr (Inv.normal hw hc h0 hf)⟩
+  | ret v hw =>
+    rw [List.map_cons, List.map_nil, fold1] at hc' ⊢
+    cases hc'
+    exact ⟨m, rfl, by omega, Or.inr (Inv.normal hw hc h0 hf)⟩
+  | cb k hu => exact Post.cb k hu hc c' hc'
+
+theorem api_shape (s : St) (a : Api) (hpc : s.pc = .user) : Shape (api s a).1 (api s a).2 := by
+  have hu : waitArgs s.pc = none := by rw [hpc]; rfl
+  by_cases h1 : ∃ t e, a = .timerRegister t e
+  · obtain ⟨t, e, rfl⟩ := h1
+    simp only [api]
+    split
+    · exact Shape.ret 0 hu
+    · exact Shape.dead _ rfl rfl
+    · exact Shape.dead _ rfl rfl
+  by_cases h2 : ∃ t, a = .timerUnregister t
+  · obtain ⟨t, rfl⟩ := h2
+    simp only [api]
+    split
+    · exact Shape.ret 0 hu
+    · exact Shape.dead _ rfl rfl
+    · exact Shape.dead _ rfl rfl
+  by_cases h3 : a = .main
+  · subst h3
+    simp only [api]
+    split
+    · exact Shape.nil rfl
+    · exact Shape.dead _ rfl rfl
+  by_cases h4 : a = .validateNow
+  · subst h4
+    simp only [api]
+    split
+    · exact Shape.nil hu
+    · exact Shape.nil rfl
+  by_cases h5 : a = .invalidateNow
+  · subst h5
+    exact Shape.nil hu
+  rcases api_same s a (fun t e h => h1 ⟨t, e, h⟩) (fun t h => h2 ⟨t, h⟩) h3 h4 h5 with ⟨msg, h⟩ | ⟨hs, ho⟩
+  · rw [h]; exact Shape.dead _ rfl rfl
+  · have hw : waitArgs (api s a).1.pc = none := by rw [hs.pc]; exact hu
+    rcases ho with ho | ⟨v, ho⟩
+    · rw [ho]; exact Shape.nil hw
+    · rw [ho]; exact Shape.ret v hw
+
+
+/-! ### the clock is read -/
+
+theorem inp_time {μ : M} {s : St} {c : CSt} {m : TmoSt} (g : Good μ s) (I : Inv s c m) (k : TimeK) (t : TS)
+    (hpc : s.pc = .needTime k) :
+    Post (afterTime s t k).1 c m (Ev.inp (.time t) :: (afterTime s t k).2.map Ev.out) := by
+  have houts : (afterTime s t k).2 = [] := by cases k <;> rfl
+  have htime : (afterTime s t k).1.time = t := by cases k <;> rfl
+  rw [houts]
+  intro c' hc'
+  rw [List.map_nil, fold1] at hc' ⊢
+  refine ⟨m, rfl, I.zle, Or.inr ?_⟩
+  -- the contract
+  have hcl : c'.last = ns t ∧ (∀ d, c.due = some d → d ≤ ns t) := by
+    simp only [ctrStep] at hc'
+    split at hc'
+    · next d hd =>
+      split at hc'
+      · next hle => cases hc'; exact ⟨rfl, fun d' h => by rw [hd] at h; cases h; exact hle⟩
+      · cases hc'
+    · next hd => cases hc'; exact ⟨rfl, fun d h => by rw [hd] at h; cases h⟩
+  cases k with
+  | forTimers =>
+    refine ⟨by rw [htime]; exact hcl.1, I.zle, ?_, ?_, ?_, ?_⟩
+    · intro abs km h; simp [afterTime, goto, waitArgs] at h
+    · intro abs km h; simp [afterTime, goto] at h
+    · intro ho
+      have := I.owed ho
+      rw [hpc] at this
+      simp only [OwedAt] at this
+      obtain ⟨d, hd, r, hr, hle⟩ := this
+      show OwedAt _ c' (.run .collect)
+      simp only [OwedAt]
+      exact ⟨r, hr, Int.le_trans hle (hcl.2 d hd)⟩
+    · intro hf h1
+      have := I.zs hf h1
+      unfold ZInv at this ⊢
+      refine ⟨this.1, ?_⟩
+      show ZAt _ m (.run .collect)
+      simp only [ZAt]
+      rfl
+  | forWait abs km =>
+    refine ⟨by rw [htime]; exact hcl.1, I.zle, ?_, ?_, ?_, ?_⟩
+    · intro abs' km' h a ha
+      simp only [afterTime, goto, waitArgs, Option.some.injEq, Prod.mk.injEq] at h
+      obtain ⟨rfl, rfl⟩ := h
+      exact I.absR _ _ (by rw [hpc]; rfl) a ha
+    · intro abs' km' h; simp [afterTime, goto] at h
+    · intro ho
+      have := I.owed ho
+      rw [hpc] at this
+      simp only [OwedAt] at this
+    · intro hf h1
+      have := I.zs hf h1
+      unfold ZInv at this ⊢
+      rw [hpc] at this
+      refine ⟨this.1, ?_⟩
+      show ZAt _ m (.run (.wait abs km))
+      simp only [ZAt] at this ⊢
+      exact Or.inr this.2
+  | forValidate =>
+    obtain ⟨hf, h0⟩ := I.idle hpc (by simp [OwedAt]) (by simp [ZAt])
+    exact Inv.normal rfl (by rw [htime]; exact hcl.1) h0 hf
+
+/-! ### the wait returns -/
+
+def wakeRt (s : St) (abs : Option TS) : Bool := if s.method == .epollTimerfd then abs.isSome else true
+
+/-- the state after `EINTR` or an empty result -/
+def wake (s : St) (abs : Option TS) (km : Bool) : St :=
+  { s with timeValid := false, lastAbsCount := if km && wakeRt s abs then 0 else s.lastAbsCount,
+           stack := .poll [] (wakeRt s abs) :: s.stack, pc := .run .dispatchNext }
+
+theorem wake_eq (s : St) (abs : Option TS) (km : Bool) : afterWait s abs km .eintr = (wake s abs km, []) := by
+  cases km <;> cases abs <;> cases h : (s.method == .epollTimerfd) <;> simp [afterWait, goto, wake, wakeRt, h]
+
+theorem wake_eq' (s : St) (abs : Option TS) (km : Bool) : afterWait s abs km (.events []) = (wake s abs km, []) :=
+  wake_eq s abs km
+
+theorem wakeRt_some {s : St} {abs : Option TS} (h : abs.isSome = true) : wakeRt s abs = true := by
+  unfold wakeRt; split <;> simp [h]
+
+theorem zd_wake {s : St} {abs : Option TS} {km : Bool}
+    (h : (s.tasks = [] ∧ WArgs s abs km) ∨ abs.isSome = true) : ZD (wake s abs km) (wakeRt s abs) := by
+  have hsome : abs.isSome = true → ZD (wake s abs km) (wakeRt s abs) := by
+    intro ha
+    rw [wakeRt_some ha]
+    unfold ZD
+    rw [if_pos rfl]
+    rfl
+  rcases h with ⟨ht, ⟨rfl, rfl, hK⟩ | ⟨rfl, ⟨rfl, hn⟩ | ⟨a, rfl, _, _⟩⟩⟩ | ha
+  · have hr : wakeRt s none = false := by simp [wakeRt, hK.1]
+    rw [hr]
+    unfold ZD
+    rw [if_neg (by simp)]
+    refine ⟨ht, Or.inr ⟨hK.1, ?_, hK.2.2⟩⟩
+    show (if (true && wakeRt s none) = true then 0 else s.lastAbsCount) = 5
+    rw [hr]
+    exact hK.2.1
+  · unfold ZD
+    split
+    · rfl
+    · exact ⟨ht, Or.inl hn⟩
+  · exact hsome rfl
+  · exact hsome ha
+
+theorem afterWait_events_shape (s : St) (abs : Option TS) (km : Bool) (l : List WItem) :
+    (afterWait s abs km (.events l)).2 = [] ∧ waitArgs (afterWait s abs km (.events l)).1.pc = none := by
+  rw [Ivy.L1.ProofsC02.afterWait_events]
+  simp only [goto]
+  generalize List.foldl Ivy.L1.ProofsC02.wfold _ l = r
+  by_cases hr : r.2.2.2 = true <;> simp [hr, waitArgs]
+
 end Ivy.L1.ProofsC07tmo
